@@ -154,7 +154,7 @@ SCOPE_SPELLINGS = ["2", "['2']", '["2"]', "[2]", "['cases', '20']", "[cases, '20
 
 
 def snapshot(d: Path) -> dict:
-    return {str(p.relative_to(d)): p.read_bytes() for p in sorted(d.rglob("*")) if p.is_file()}
+    return {str(p.relative_to(d)): (p.read_bytes() if p.is_file() else b"<dir>") for p in sorted(d.rglob("*"))}
 
 
 def run_cli(cwd: Path, argv: list[str]):
@@ -322,14 +322,24 @@ def failure_case(kind: str):
 
         make_sources(random.Random(1), tmp, 1)
         before = snapshot(tmp)
+        kind, _, deco = kind.partition("+")
         argv = {"missing": ["nosuchfile"], "bad-o": ["src0", "-o", "yaml"], "bad-mode": ["src0", "--mode", "x"],
+                "bad-log-level": ["src0", "--log-level", "LOUD"], "no-input": [],
                 "unknown-scope": ["src0", "--scope", "nosuchscope"], "unknown-scope-list": ["src0", "--scope", "[scopeA, nope]"]}[kind]
+        # the failing element combined with other, valid options, in front of it and behind it
+        extra = {"": [], "log": ["--log", "run.log"], "logdeep": ["--log", "logs/deep/run.log"], "opts": ["--order", "-I", "-q"]}[deco.rstrip("<>")]
+        argv = (argv[:1] + extra + argv[1:]) if deco.endswith("<") else (argv + extra)
         rc, out, err = run_cli(tmp, argv)
         after = snapshot(tmp)
         if "Traceback" in err or "Traceback" in out:
             return ("traceback", f"{kind}: traceback printed: {err[-300:]}")
-        if after != before:
-            return ("writes-on-failure", f"{kind}: files changed: {sorted(set(after) ^ set(before))}")
+        changed = sorted(set(after.items()) ^ set(before.items()))
+        names = sorted({k for k, _ in changed})
+        if kind in ("missing", "unknown-scope", "unknown-scope-list"):
+            # the command line itself is valid: the log file asked for with --log is an extra output by design
+            names = [n for n in names if not str(n).endswith("run.log") and str(n) not in ("logs", "logs/deep")]
+        if names:
+            return ("writes-on-failure", f"{kind} ({' '.join(argv)}): files changed: {names}")
         return None
     finally:
         shutil.rmtree(tmp, ignore_errors=True)
@@ -455,7 +465,9 @@ def run(ctx):
     #     onto the pre-existing parsed.<name>) for native and Foam output, model vs implementation: name and bytes
     parse_model_correspondence(ctx, rng, [f for f in matrix if f["out"] not in ("json", "xml") and not f["log"] and f["verb"] is None])
     # 3. failure cases
-    for what in ("missing", "bad-o", "bad-mode", "unknown-scope", "unknown-scope-list"):
+    whats = [k + d for k in ("missing", "bad-o", "bad-mode", "bad-log-level", "no-input", "unknown-scope", "unknown-scope-list")
+             for d in ("", "+log<", "+log>", "+logdeep<", "+opts<", "+opts>")]
+    for what in whats:
         c = {"kind": "failure", "what": what}
         r = oracle(c)
         if r:
